@@ -501,12 +501,18 @@ func (h *vHist) longState(n int) []int {
 			verifAssert(false, "long-state-setup-refused")
 		}
 		idx = append(idx, i)
+		if k == 1 {
+			// an old one-header side branch low in the chain (far below the retained depth later)
+			if l, err := h.scripted(idx[0], 0); err == nil {
+				idx = append(idx, l)
+			}
+		}
 		p = i
 	}
 	if err := h.repo.Clean(h.ctx); err != nil {
 		verifAssert(false, "long-state-clean-failed")
 	}
-	s1, err := h.scripted(idx[n-2], 0)
+	s1, err := h.scripted(h.parent[p], 0)
 	if err == nil {
 		idx = append(idx, s1)
 		s2, err := h.scripted(s1, 0)
@@ -517,13 +523,15 @@ func (h *vHist) longState(n int) []int {
 	return idx
 }
 
-// setupState applies the state construction selected by the run's parameters.
+// setupState applies the state construction selected by the run's parameters and returns the
+// number of headers it submitted.
 func (h *vHist) setupState() int {
+	before := len(h.hdr)
 	switch {
 	case verifParam("rich", 0) == 1:
-		return len(h.richState())
+		h.richState()
 	case verifParam("long", 0) > 0:
-		return len(h.longState(verifParam("long", 0)))
+		h.longState(verifParam("long", 0))
 	}
-	return 0
+	return len(h.hdr) - before
 }
